@@ -119,6 +119,7 @@ def main(argv=None):
     vio_lines = []
     os.makedirs(os.path.join(VERIF, "replays", pid), exist_ok=True)
     seen = set()
+    replay_cache = {}
     n_known_lines = set()
     for (k, uname, o) in known_hits:
         oname_k = k.get("obligation") or (k.get("obligation_prefix", "") + "*")
@@ -137,8 +138,14 @@ def main(argv=None):
         try:
             if hasattr(mod, "replay"):
                 import contextlib, io
-                with contextlib.redirect_stderr(io.StringIO()):      # progress bars of real solver runs
-                    rr = mod.replay(uname, o)
+                # native searches that do not depend on the individual obligation are run once per scope (default: per obligation)
+                scope = (uname, mod.replay_scope(uname, o)) if hasattr(mod, "replay_scope") else (uname, o["name"])
+                if scope in replay_cache:
+                    rr = dict(replay_cache[scope][1], shared_with=replay_cache[scope][0])
+                else:
+                    with contextlib.redirect_stderr(io.StringIO()):      # progress bars of real solver runs
+                        rr = mod.replay(uname, o)
+                    replay_cache[scope] = (o["name"], rr)
                 rep["replay"] = rr
                 confirmed = bool(rr and rr.get("confirmed"))
         except Exception as e:  # replay harness failure is not a verdict
